@@ -1,7 +1,9 @@
 //! hx-chain <Cxx>: correspondence harness for the properties that are observed
 //! on the real chain service (ckb-chain + ckb-shared + ckb-store).
 mod c01;
+mod c02;
 mod c20;
+mod hist;
 mod node;
 mod tree;
 
@@ -36,6 +38,11 @@ fn main() {
             let r = c01::run(seed, thorough, &out);
             Summary { viol: r.viol, evaluations: r.evaluations, distinct: r.distinct.len(), stats: r.stats, samples: r.samples,
                 rule: "random block trees (5..26 blocks quick, ..60 thorough; fork bias 10/25/45 %; genesis epoch of 3/4/6/9/1000 blocks so that branches get different difficulties after the first epoch; 0/6/12 % contextually invalid blocks (DAO field, cellbase reward), 0/4 % non-contextually invalid (transactions root)) x delivery schedules (in order, reversed, neighbour swaps, random permutation, early block withheld; 10 % duplicates) delivered asynchronously to a real node; after every delivery the node is observed at quiescence. distinct = distinct (tree, schedule); all have >= 5 blocks" }
+        }
+        "C02" => {
+            let r = c02::run(seed, thorough, &out, &scratch);
+            Summary { viol: r.viol, evaluations: r.evaluations, distinct: r.distinct.len(), stats: r.stats, samples: r.samples,
+                rule: "histories on a real on-disk node: extensions with fee-paying transactions (proposed, then committed inside the window; in-block chains, conflicting spends, re-commits of the same transaction on a competing branch, uncles), competing branches that take over (longer, or shorter but heavier after the first epoch), truncations, restarts; after every change of the main chain COLUMN_CELL / TRANSACTION_INFO / INDEX / UNCLES are dumped by iteration from the store and from the published snapshot and compared with a replay of the main chain (property predicate) and with the Coq model's reorg. distinct = distinct histories, each >= 5 steps" }
         }
         "C20" => {
             let r = c20::run(seed, thorough, &out, &scratch);
